@@ -395,6 +395,31 @@ fn gen_conflicting_slices(r: &mut Rng, dst: &Side) -> Vec<Vec<u8>> {
     out
 }
 
+/// An unreliable sliced message that fills the channel's budget exactly, whose last slice is longer than a slice may
+/// be (1201 bytes, or several slices' worth: process_packet takes packets of any length).
+fn gen_fat_last_slice(r: &mut Rng, dst: &Side) -> Vec<Vec<u8>> {
+    let c = match dst.recv.iter().find(|c| c.ty == 0 && c.max >= 2400 && c.max <= 16_000) {
+        Some(c) => c.clone(),
+        None => return vec![],
+    };
+    let num = c.max / 1200;
+    let id = r.below(1000);
+    let mut seq = r.below(1 << 16);
+    let mut out = vec![];
+    let last_len = *r.pick(&[1201usize, 1290, 2400, 5000]);
+    let last_first = r.chance(1, 3);
+    let order: Vec<usize> = if last_first { std::iter::once(num - 1).chain(0..num - 1).collect() } else { (0..num).collect() };
+    for idx in order {
+        seq += 1;
+        let plen = if idx == num - 1 { last_len } else { 1200 };
+        let slice = Slice { message_id: id, slice_index: idx, num_slices: num, payload: Bytes::from(r.bytes(plen)) };
+        if let Ok(bb) = encode_packet(&Packet::UnreliableSlice { sequence: seq, channel_id: c.id, slice }, 8000) {
+            out.push(bb);
+        }
+    }
+    out
+}
+
 /// Small reliable messages that contradict each other: one message id sent twice with different payloads while the
 /// first copy is still buffered (ids at and just above the delivery cursor of a fresh channel).
 fn gen_conflicting_small(r: &mut Rng, dst: &Side) -> Vec<Vec<u8>> {
@@ -528,6 +553,11 @@ pub fn gen_pair(r: &mut Rng, g: &PairGen) -> Vec<Tree> {
                     for raw in gen_conflicting_slices(r, &sides[s]) {
                         ops.push(op_raw(sides[s].ep, &raw));
                     }
+                } else if r.chance(1, 10) {
+                    for raw in gen_fat_last_slice(r, &sides[s]) {
+                        ops.push(op_raw(sides[s].ep, &raw));
+                    }
+                    ops.push(op_status(sides[s].ep));
                 } else if r.chance(1, 8) {
                     for raw in gen_conflicting_small(r, &sides[s]) {
                         ops.push(op_raw(sides[s].ep, &raw));
